@@ -571,6 +571,9 @@ def fault_plans(trace, rng, tier):
             else:
                 plans.append({'kind': 'oserror', 'at': k, 'errno': en})
         plans.append({'kind': 'kbi', 'at': k})
+        if kind == 'write' and trace[k].get('via') == 'os.write' and trace[k].get('size', 0) > 1:
+            # write(2) stores half of what it was given and says so; the disk is full from then on
+            plans.append({'kind': 'short-write', 'at': k})
         # persistent conditions starting at this step: the disk stays full, or turns read-only
         plans.append({'kind': 'oserror-from', 'at': k, 'errno': 'ENOSPC'})
         plans.append({'kind': 'oserror-from', 'at': k, 'errno': 'EROFS'})
